@@ -68,8 +68,8 @@ CLAIMED["C10"] = dict(
     ref="§3 C10")
 
 CLAIMED["C12"] = dict(
-    technique="static analysis: finite evaluation of each parameter guard over the orderings below/equal/above its bound (compared with a frozen table from the repository's documentation), provenance of the divisor of the noise reduction (power-of-two check), role/step/generator wiring census of the three noise passes",
-    text="Decides the guard and wiring clauses: every documented parameter range check rejects exactly the out-of-range orderings (the deviant `delta != 0.0` guard was found this way), the sample-to-share map reduces modulo a power of two for every admitted width (the 2^32-1 modulus at the production width was found this way), the three noise/padding passes exclude H1, H2, H3 on distinct steps, the two generating helpers draw from the PRSS side they share and the excluded helper contributes zero. The distribution law, truncation point and achieved delta are numerical and not decided.",
+    technique="static analysis: finite evaluation of each parameter guard over the orderings below/equal/above its bound (compared with a frozen table from the repository's documentation), provenance of the divisor of the noise reduction (power-of-two check), role/step/generator wiring census of the three noise passes, expression-shape and dominance checks of the samplers, numerical comparison of the extracted eq.-11 prefactor with its closed form on a parameter grid",
+    text="Decides the guard and wiring clauses: every documented parameter range check rejects exactly the out-of-range orderings (the deviant `delta != 0.0` guard was found this way), the sample-to-share map reduces modulo a power of two for every admitted width (the 2^32-1 modulus at the production width was found this way), the three noise/padding passes exclude H1, H2, H3 on distinct steps, the two generating helpers draw from the PRSS side they share and the excluded helper contributes zero; the samplers have the documented construction (geometric counts failures from 0, double geometric = shift + g1 - g2 with p = 1 - e^(-1/s), truncated sampler returns the unmodified draw exactly on 0 <= draw <= 2*shift and redraws otherwise); the truncation search scans n upwards from the sensitivity and accepts the first n with rhs(n) <= delta, where rhs's prefactor equals the closed form of eq. 11 numerically on a grid and its sum runs over n-D+1..=n. The achieved distribution as a numerical object and the achieved delta are not decided.",
     ref="§3 C12")
 
 CLAIMED["C03"] = dict(
